@@ -293,6 +293,22 @@ def concrete_suite(ctx):
         lines12.append([(float(x), 9.83 + 2.41 * (k % 2) + 0.013 * k) for k, x in enumerate(xs)])
     lines12.append([(float(x), 10.2 + 0.07 * k) for k, x in enumerate(numpy.linspace(111.2, 99.9, 23))])
     datasets.append((ds12, 'temp', lines12))
+    # paths that stay in the cell with linear index 0 (or only clip its corner)
+    lines1.extend([[(99.8, 10.1), (100.3, 10.3)], [(99.4, 9.9), (99.9, 9.4)], [(99.7, 10.2), (100.2, 10.4), (99.8, 9.8)]])
+    linesm.extend([[(0.2, 0.2), (0.8, 0.8)], [(-0.5, 0.5), (0.5, -0.5)]])
+    datasets[2][2].extend([[(99.8, 12.1), (100.3, 12.3)], [(99.4, 12.1), (99.9, 12.6)]])
+    # a grid of 0.001 degree cells at 150 E on the equator (where the projection offset of the known finding
+    # vanishes): pieces a thousandth of a degree long are pieces all the same
+    latf = -0.001 + 0.001 * numpy.arange(3.0)
+    lonf = 150.0 + 0.001 * numpy.arange(20.0)
+    dsf = builders.cf1d(3, 20, lat=latf, lon=lonf, data_vars={'temp': (('k', 'y', 'x'), numpy.arange(2 * 3 * 20, dtype=float).reshape(2, 3, 20))})
+    dsf = dsf.assign_coords(zc=(('k',), numpy.array([1.0, 3.0]), {'positive': 'down', 'long_name': 'depth', 'units': 'm'}))
+    datasets.append((dsf, 'temp', [[(149.9997, -0.0004), (150.0193, -0.0004)],
+                                   [(149.9997, -0.0008), (150.0193, -0.0006)],
+                                   [(150.0002, -0.0013), (150.0101, 0.0008), (150.0004, -0.0001)],
+                                   [(149.9994, -0.0014), (149.9996, -0.0016)],
+                                   [(150.0082, -0.0012), (150.0082, 0.0013)],
+                                   [(150.00049, -0.0012), (150.00051, -0.00051)]]))
     deferred = []      # reported after everything else has been checked
     from harness import geomref as _geomref
     for ds, var, lines in datasets:
@@ -322,9 +338,12 @@ def concrete_suite(ctx):
             if segs and abs(inside.length - line.length) <= 1e-12 and on_edges <= 1e-12:
                 total_m = tr.points[-1].distance_metres
                 covered = sum(s.end_distance - s.start_distance for s in segs)
-                ctx.check(abs(covered - total_m) <= 0.02 * total_m and abs(segs[0].start_distance) <= 0.05 * total_m
-                          and abs(segs[-1].end_distance - total_m) <= 0.05 * total_m,
-                          'metre distances: the segments span the path from its start to its end (within 2-5 percent)')
+                # (paths of a few hundred kilometres: the projection offset of the known finding - up to 24 km - stays
+                #  within these margins; on shorter paths it swamps them and only the exact statement below is made)
+                if total_m >= 3.0e5:
+                    ctx.check(abs(covered - total_m) <= 0.02 * total_m and abs(segs[0].start_distance) <= 0.05 * total_m
+                              and abs(segs[-1].end_distance - total_m) <= 0.05 * total_m,
+                              'metre distances: the segments span the path from its start to its end (within 2-5 percent)')
                 if not (abs(covered - total_m) <= 1e-6 * total_m and abs(segs[0].start_distance) <= 1e-6 * total_m):
                     deferred.append('metre distances: a path inside the model starts at distance 0 and segment lengths add up exactly')
             keys = [(s.start_distance, s.end_distance) for s in segs]
